@@ -79,6 +79,11 @@ func (r *run) batteryScripts() [][]byte {
 	s = append(s, callScript(nativehashes.PolicyContract, "isBlocked", r.w.accounts[1]))
 	s = append(s, callScript(nativehashes.NeoToken, "getCandidates"))
 	s = append(s, callScript(nativehashes.NeoToken, "getCommittee"))
+	// (reads contract storage backwards from a start key)
+	for _, role := range []int64{4, 8, 16, 32} {
+		s = append(s, callScript(nativehashes.RoleManagement, "getDesignatedByRole", role, int64(r.P.BC.BlockHeight())))
+		s = append(s, callScript(nativehashes.RoleManagement, "getDesignatedByRole", role, int64(r.P.BC.BlockHeight()/2+1)))
+	}
 	for i := range r.prod.khash {
 		if r.prod.khash[i] != (util.Uint160{}) {
 			s = append(s, callScript(r.prod.khash[i], "get", kKeys[0]))
